@@ -12,6 +12,9 @@
 (*   Verify(vd)               ps.verify(variant vd of the background)       *)
 (*   Apply(key, vd, ops)      ps.apply(variant, key), the patch the key     *)
 (*                            designates carrying the RFC-6902 list ops     *)
+(*   Reapply                  the same call once more on the same object:   *)
+(*                            Apply is a function of the document, so the   *)
+(*                            answer is the same                            *)
 (*                                                                         *)
 (* Patch names come from a pool that contains the words pyhf uses           *)
 (* internally ("name", "values", "metadata", "patches"); value tuples from  *)
@@ -36,7 +39,8 @@
 (*   VerifyIffRecorded    Verify succeeds iff the variant is canonically    *)
 (*                        the document recorded under EVERY algorithm       *)
 (*   ApplyPure            the workspace handed in is unchanged; the result  *)
-(*                        is JsonPatch(input, ops of the designated patch)  *)
+(*                        is JsonPatch(input, ops of the designated patch), *)
+(*                        also when the call is repeated                    *)
 (*   ImplEqDefOutsideInternal   implementation layer = definition layer     *)
 (*                        whenever neither a patch name nor a string key is *)
 (*                        "name" / "values"                                 *)
@@ -48,9 +52,11 @@
 (*   ImplEqDef            NOT asserted by the check's main runs: it FAILS   *)
 (*                        (shortest counterexample: Register("name", ..),   *)
 (*                        Seal).  The check runs it once on a small cfg to   *)
-(*                        record TLC's counterexample as the explanation.   *)
+(*                        record TLC's counterexample as the explanation,   *)
+(*                        and once with SharedBookkeeping = FALSE (the       *)
+(*                        dictionary starts empty), where it HOLDS.          *)
 (*   Emit                 prints one JSON case per sealed / looked /         *)
-(*                        verified / applied state                           *)
+(*                        verified / applied / reapplied state               *)
 (***************************************************************************)
 EXTENDS PatchSet, Json
 
@@ -62,6 +68,7 @@ CONSTANTS NameSel,       \* which entries of AllNames are patch names (TLC cfg f
           DoLookup, DoVerify, DoApply,
           MaxOps,        \* longest operation list (0..3)
           ApplyVariantKinds,   \* which variant kinds Apply explores
+          SharedBookkeeping,   \* TRUE: _patches_by_key starts as {'name': {}, 'values': {}} (the code as read); FALSE: as {}
           EmitCases, EmitMod, EmitRes
 
 VARIABLES nl, dig, doc, phase, def, impl, q, dres, ires, wsIn
@@ -166,7 +173,7 @@ NoQ   == [key |-> NoKey, vd |-> VD("same", <<>>, ""), opidx |-> <<>>]
 
 -----------------------------------------------------------------------------
 Init == /\ nl \in LabelCounts /\ dig \in DigestCfgs
-        /\ doc = <<>> /\ phase = "build" /\ def = DefInit /\ impl = ImplInit
+        /\ doc = <<>> /\ phase = "build" /\ def = DefInit /\ impl = ImplInitWith(SharedBookkeeping)
         /\ q = NoQ /\ dres = NoRes /\ ires = NoRes /\ wsIn = Null
 
 Register(name, values) ==
@@ -213,12 +220,21 @@ Apply(key, vd, idx) ==
   /\ phase' = "applied" /\ q' = [key |-> key, vd |-> vd, opidx |-> idx]
   /\ UNCHANGED <<nl, dig, def, impl>>
 
-Next == \/ phase = "build" /\ \E i \in DOMAIN NameSeq : \E t \in RightTuples(nl) \cup WrongTuples(nl) : Register(NameSeq[i], t)
-        \/ Seal
-        \/ phase = "sealed" /\ DoLookup /\ \E k \in LookupKeys : Lookup(k)
-        \/ phase = "sealed" /\ DoVerify /\ \E vd \in VariantsW0 : Verify(vd)
-        \/ phase = "sealed" /\ DoApply /\ def.status = "ok" /\
-              \E k \in ApplyKeys : \E vd \in ApplyVariants : \E idx \in OpIdxLists : Apply(k, vd, idx)
+TargetOps == LET t == DefLookup(def, q.key) IN IF t.status = "patch" THEN doc[t.i].ops ELSE <<>>
+Reapply ==
+  /\ phase = "applied" /\ phase' = "reapplied"
+  /\ dres' = DefApply(def, Digests, Recorded, wsIn, q.key, TargetOps)
+  \* the implementation layer takes jsonpatch for the function JsonPatch (that jsonpatch inserts the values of
+  \* add/copy/move operations by reference is not transcribed; the replay observes the real object twice)
+  /\ ires' = IF impl.status = "ok" THEN ImplApply(impl, Digests, Recorded, wsIn, q.key, TargetOps) ELSE NoObject
+  /\ UNCHANGED <<nl, dig, doc, def, impl, q, wsIn>>
+
+RegisterAny == phase = "build" /\ \E i \in DOMAIN NameSeq : \E t \in RightTuples(nl) \cup WrongTuples(nl) : Register(NameSeq[i], t)
+LookupAny   == phase = "sealed" /\ DoLookup /\ \E k \in LookupKeys : Lookup(k)
+VerifyAny   == phase = "sealed" /\ DoVerify /\ \E vd \in VariantsW0 : Verify(vd)
+ApplyAny    == phase = "sealed" /\ DoApply /\ def.status = "ok" /\
+                 \E k \in ApplyKeys : \E vd \in ApplyVariants : \E idx \in OpIdxLists : Apply(k, vd, idx)
+Next == RegisterAny \/ Seal \/ LookupAny \/ VerifyAny \/ ApplyAny \/ Reapply
 Spec == Init /\ [][Next]_vars
 
 -----------------------------------------------------------------------------
@@ -242,7 +258,7 @@ LookupExact == phase = "looked" =>
      /\ dres.status = "patch" => dres.i \in DOMAIN doc /\ (hitName(dres.i) \/ hitValues(dres.i))
      /\ dres.status = "raises" => "InvalidPatchLookup" \in dres.errs /\ \A i \in DOMAIN doc : ~hitName(i) /\ ~hitValues(i)
 
-VariantsClassified == phase \in {"verified", "applied"} =>
+VariantsClassified == phase \in {"verified", "applied", "reapplied"} =>
   /\ q.vd.kind = "same" => wsIn = W0
   /\ q.vd.kind \in {"perm", "permall"} => wsIn # W0 /\ CanonEq(wsIn, W0)
   /\ q.vd.kind \in {"leaf", "swap"} => ~CanonEq(wsIn, W0)
@@ -251,7 +267,7 @@ VariantsClassified == phase \in {"verified", "applied"} =>
 VerifyIffRecorded == phase = "verified" =>
   ((dres.status = "ok") <=> \A i \in DOMAIN Digests : Canon(wsIn) = Canon(Recorded[Digests[i].of]))
 
-ApplyPure == phase = "applied" =>
+ApplyPure == phase \in {"applied", "reapplied"} =>
   /\ wsIn = MkVariant(W0, q.vd)
   /\ dres.status = "ok" => /\ DefLookup(def, q.key).status = "patch"
                            /\ dres.result = JsonPatch(wsIn, doc[DefLookup(def, q.key).i].ops)
@@ -259,7 +275,7 @@ ApplyPure == phase = "applied" =>
   /\ dres.status \in {"ok", "raises"}
 
 \* -- implementation-shaped layer against the definition layer ---------------------------------
-Queried == phase \in {"looked", "verified", "applied"}
+Queried == phase \in {"looked", "verified", "applied", "reapplied"}
 ImplEqDef ==
   /\ phase # "build" => ((impl.status = "ok") <=> (def.status = "ok"))
   /\ Queried => SameVerdict(dres, ires)
@@ -288,8 +304,12 @@ DocCode(i) == IF i > Len(doc) THEN 0 ELSE i * i * (NameIdx(doc[i].name) * 13 + T
 RECURSIVE SeqCode(_)
 SeqCode(s) == IF s = <<>> THEN 0 ELSE Head(s) + 17 * SeqCode(Tail(s))
 Hash == DocCode(1) * 7 + nl + dig * 3 + Len(q.key.kind) * 5 + Len(q.key.s) + TupCode(q.key.t) * 11
-        + Len(q.vd.path) + Len(q.vd.how) + SeqCode(q.opidx)
-Emit == (EmitCases /\ phase # "build" /\ (phase \in {"sealed", "verified"} \/ Hash % EmitMod = EmitRes))
+        + Len(q.vd.path) + Len(q.vd.how) + SeqCode(q.opidx) + (IF phase = "reapplied" THEN 1 ELSE 0)
+\* sealed and verified states are always printed, and so are applications by a bookkeeping word; the rest is sampled
+Emit == (EmitCases /\ phase # "build"
+         /\ (\/ phase \in {"sealed", "verified"}
+             \/ phase \in {"applied", "reapplied"} /\ q.key.kind = "str" /\ q.key.s \in Internal
+             \/ Hash % EmitMod = EmitRes))
         => PrintT(ToJson(Case))
 ASSUME EmitCases => PrintT(ToJson([header |-> TRUE, keyorder |-> KeyOrder, recorded |-> Recorded, atoms |-> AtomSeq]))
 =============================================================================
